@@ -316,6 +316,9 @@ int _vnacal_new_add_common(vnacal_new_add_arguments_t vnaa)
     /* address where next equation should be linked */
     vnacal_new_equation_t **vnepp_anchor = &ncep_head;
 
+    /* number of parameters known to vnp on entry */
+    const int parameter_count = vnp->vn_parameter_hash.vnph_count;
+
     /* return code */
     int rc = -1;
 
@@ -1015,6 +1018,14 @@ out:
 	free((void *)vnep);
     }
     _vnacal_new_free_measurement(vnmp);
+
+    /*
+     * A rejected standard adds nothing: forget the parameters it
+     * introduced.
+     */
+    if (rc != 0) {
+	_vnacal_new_forget_parameters(vnp, parameter_count);
+    }
 
     return rc;
 }
